@@ -51,6 +51,11 @@ func (w *world) Run(t *rt.Tape, trace bool) *core.Result {
 		n = 2 + t.Choose(rt.SGen, 2)
 		k = 1 + t.Choose(rt.SGen, 2)
 	}
+	if t.Choose(rt.SGen, 120) == 0 {
+		// "every number of connections per pair": around the 256 that the one-byte connection id of the
+		// hello message can tell apart (a configuration the constructors refuse is not judged)
+		n, k = 2, []int{255, 256, 257, 300}[t.Choose(rt.SGen, 4)]
+	}
 	net := simnet.Current()
 	dir, _ := core.DrawDir(t, core.TCPCaps)
 	dir.LatMax /= 4
@@ -122,6 +127,7 @@ func (w *world) Run(t *rt.Tape, trace bool) *core.Result {
 	// after a while (another party may be hours late), the party's network is closed under it,
 	// the only way the API offers to stop waiting. Connect may then fail; what it must not do is
 	// return nil with connections missing. Nothing else is judged in such a run.
+	refused := false
 	giveUp, patience := -1, time.Duration(0)
 	gaveUp := false
 	if busy < 0 && t.Choose(rt.SGen, 8) == 0 {
@@ -135,6 +141,10 @@ func (w *world) Run(t *rt.Tape, trace bool) *core.Result {
 	rr := rt.Run(rt.Config{Trace: trace, NoProgress: core.NoProgressDefault}, t, func() {
 		// The leader's listener exists before anybody joins, as in any deployment.
 		nw, err := p2p.Create(ps[0].addr, n, k)
+		if err != nil && k > 200 {
+			refused = true
+			return
+		}
 		ps[0].nw, ps[0].joinErr = nw, err
 		for _, p := range ps {
 			p := p
@@ -251,6 +261,11 @@ func (w *world) Run(t *rt.Tape, trace bool) *core.Result {
 		}
 	})
 	core.Finish(res, rr)
+	if refused {
+		res.Discard = true
+		res.Reach = map[string]int{fmt.Sprintf("discard: Create refuses %d connections per pair", k): 1}
+		return res
+	}
 	res.Nontrivial = rr.Switches > 4
 	if res.Inconclusive != "" {
 		return res
